@@ -14,9 +14,10 @@ func init() { register("quorum", cmdQuorum) }
 
 // idShape: how the abstract member index becomes a concrete id.  Ids are opaque byte strings of any length; two indices
 // must never be confused whatever they look like.
-//   0 short distinct ids                         1 40-byte ids that differ only in their last bytes (common 32-byte prefix)
-//   2 ids that are prefixes of one another      3 ids that differ only by trailing zero bytes
-//   4 one-byte ids and the empty id (index 0, an outsider)
+//
+//	0 short distinct ids                         1 40-byte ids that differ only in their last bytes (common 32-byte prefix)
+//	2 ids that are prefixes of one another      3 ids that differ only by trailing zero bytes
+//	4 one-byte ids and the empty id (index 0, an outsider)
 var idShape int
 
 func memberId(i int) primitives.MemberId {
@@ -66,6 +67,11 @@ func limbsAll(ws []uint64) [][]int {
 }
 
 func quorumCall(out *ndjson, ws []uint64, ids []int) {
+	defer func() {
+		if rec := recover(); rec != nil {
+			out.emit(obj{"op": "panic", "shape": idShape, "w": limbsAll(ws), "ids": ids})
+		}
+	}()
 	com := committeeOf(ws)
 	weights := quorum.GetWeights(com)
 	isq, isqW, isqQ := quorum.IsQuorum(idsOf(ids), com)
@@ -94,6 +100,11 @@ func complement(n int, a []int) []int {
 }
 
 func quorumPair(out *ndjson, ws []uint64, a, b []int) {
+	defer func() {
+		if rec := recover(); rec != nil {
+			out.emit(obj{"op": "panic", "shape": idShape, "w": limbsAll(ws), "a": a, "b": b})
+		}
+	}()
 	com := committeeOf(ws)
 	isqA, _, _ := quorum.IsQuorum(idsOf(a), com)
 	isqB, _, _ := quorum.IsQuorum(idsOf(b), com)
